@@ -504,7 +504,7 @@ func infoStr(i fs.FileInfo) string {
 	if i.IsDir() {
 		sz = 0
 	}
-	return fmt.Sprintf("%s/%v/%d", i.Name(), i.Mode(), sz)
+	return fmt.Sprintf("%s|%v|%d", i.Name(), i.Mode(), sz)
 }
 
 var bpT0 = time.Unix(1_600_000_000, 0)
@@ -849,11 +849,20 @@ func (w *bpWorld) step(op string, a []string) opOut {
 				br.errPaths[i] = filepath.Dir(br.errPaths[i])
 			}
 		}
-		if (op == "Stat" || op == "Lstat") && rr.kind == "ok" && refAbs(a[0]) == "/" {
-			// FileInfo.Name() of the virtual root is the last element of B (known finding KF-C10-rootname,
-			// reproduced by the bpkf stream): compared without the name here
-			rr.data = rr.data[strings.Index(rr.data, "/"):]
-			br.data = br.data[strings.Index(br.data, "/"):]
+		if (op == "Stat" || op == "Lstat") && rr.kind == "ok" && br.kind == "ok" {
+			// FileInfo.Name(): the base names the result after the translated path, i.e. after the last element of
+			// the cleaned absolute path (of B itself for the virtual root), a standalone file system after the
+			// path as given (known finding KF-C10-infoname, reproduced by the bpkf stream). Exactly that class
+			// is compared without the name; any other difference of names is a deviation.
+			want := filepath.Base(refAbs(a[0]))
+			if refAbs(a[0]) == "/" {
+				want = filepath.Base(w.B)
+			}
+			rn, bn := rr.data[:strings.Index(rr.data, "|")], br.data[:strings.Index(br.data, "|")]
+			if rn != bn && bn == want && rn == filepath.Base(a[0]) {
+				rr.data = rr.data[len(rn):]
+				br.data = br.data[len(bn):]
+			}
 		}
 		switch {
 		case rr.kind != br.kind:
@@ -1269,4 +1278,39 @@ func runBpStr(cfg config) {
 			o.count("FromBasePath:panics(outside B)")
 		}
 	}
+}
+
+// ---------------------------------------------------------------------------
+// witnesses of the open known findings of C10 (reproduced on every run)
+
+func init() { commands["bpkf"] = runBpKf }
+
+func runBpKf(cfg config) {
+	o := newOut(cfg.dir, cfg.name)
+	defer o.close(cfg.name)
+	o.rule = "fixed witnesses of the open known findings"
+	// KF-C10-infoname: FileInfo.Name() of the virtual root and of "."
+	w := newWorld("memfs", "/c")
+	o.emit("kf infoname", guard(func() string {
+		i, err := w.bp.Stat("/")
+		if err != nil {
+			return "err"
+		}
+		ri, _ := w.ref.Stat("/")
+		_ = w.bp.Chdir("/a")
+		_ = w.ref.Chdir("/a")
+		j, err := w.bp.Stat(".")
+		if err != nil {
+			return "err"
+		}
+		rj, _ := w.ref.Stat(".")
+		return fmt.Sprintf("root=%s ref=%s last=%s dot=%s refdot=%s", tok(i.Name()), tok(ri.Name()), tok(filepath.Base(w.B)), tok(j.Name()), tok(rj.Name()))
+	}), "infoname")
+	// KF-C10-rootops: RemoveAll("/") removes the base directory itself
+	w = newWorld("memfs", "/c")
+	o.emit("kf rootops", guard(func() string {
+		err := w.bp.RemoveAll("/")
+		_, e2 := w.base.Stat(w.B)
+		return fmt.Sprintf("removeall=%v base-dir-exists=%v", err, e2 == nil)
+	}), "rootops")
 }
